@@ -190,12 +190,113 @@ func descriptorShapes() []shapeCase {
 		}
 		return &spec.File{Messages: []*spec.Message{plain("P")}, Services: []*spec.Service{s}}
 	})
+	// odd (but descriptor-valid) strings in every annotation slot that a generator parses or copies:
+	// any answer — files or an error message — is fine, a crash or a hang is not
+	for _, slot := range textSlots {
+		for _, tx := range oddTexts(slot) {
+			slot, tx := slot, tx
+			mk("text/"+slot+"/"+tx.label, func(pkg string) *spec.File { return textFile(pkg, slot, tx.text) })
+		}
+	}
 	// no package / no go_package
 	out = append(out, shapeCase{ID: "no-proto-package", Files: []*spec.File{{Path: "c16/nopkg.proto", Package: "", GoImport: "lab/gen/c16nopkg", GoName: "c16nopkg",
 		Messages: []*spec.Message{plain("NoPkgMsg")}, Services: []*spec.Service{{Name: "NoPkgService", Methods: []*spec.Method{{Name: "Call", In: ".NoPkgMsg", Out: ".NoPkgMsg", HTTP: &spec.HTTP{Path: "/np", Verb: 2}}}}}}}})
 	out = append(out, shapeCase{ID: "no-go-package", Files: []*spec.File{{Path: "c16/nogopkg.proto", Package: "c16.nogopkg", NoGoPkg: true,
 		Messages: []*spec.Message{plain("M")}, Services: []*spec.Service{svcFor("c16.nogopkg", "M", "M")}}}})
 	return out
+}
+
+var textSlots = []string{"path", "base-path", "header-name", "header-type", "header-format", "header-text", "query-name", "discriminator", "oneof-value", "enum-value", "flatten-prefix", "field-example", "comment"}
+
+type oddText struct{ label, text string }
+
+// oddTexts lists the string classes tried in a slot. Path-like slots get brace/slash structure,
+// every slot gets the generic classes.
+func oddTexts(slot string) []oddText {
+	generic := []oddText{
+		{"empty", ""}, {"space", " "}, {"quotes", `a"b'c`}, {"backtick", "a`b${c}"}, {"backslash", `a\b\n`}, {"newline", "a\nb"}, {"tab-cr", "a\tb\rc"},
+		{"comment-end", "x */ y /* z"}, {"line-comment", "// x"}, {"percent-verbs", "%s%d%v%!%"}, {"percent-escape", "%2F%zz%"}, {"non-ascii", "naïve-名前-😀"}, {"rtl", "‮abc"},
+		{"nul", "a\x00b"}, {"yaml-special", ": - # & * ! | > @ ` yes"}, {"yaml-doc", "---\nfoo: bar"}, {"json-special", `{"a":[1,2]}`}, {"long", strings.Repeat("lo-ng", 4000)},
+		{"braces", "{}"}, {"dots", "a.b.c"}, {"dollar-ref", "#/components/schemas/X"}, {"keyword", "type"}, {"digit-start", "9lives"}, {"dash", "-"}, {"underscore", "_"},
+	}
+	if slot != "path" && slot != "base-path" {
+		return generic
+	}
+	paths := []oddText{
+		{"stray-close-before-var", "/posts}/{id}"}, {"double-close", "/users/{user_id}}/posts/{id}"}, {"close-then-var-adjacent", "/users/{user_id}/posts}{id}"},
+		{"open-only", "/a/{id"}, {"close-only", "/a/id}"}, {"empty-var", "/a/{}"}, {"nested-braces", "/a/{{id}}"}, {"adjacent-vars", "/a/{id}{user_id}"},
+		{"dotted-var", "/a/{sub.id}"}, {"star-var", "/a/{id=**}"}, {"spaced-var", "/a/{ id }"}, {"same-var-twice", "/a/{id}/b/{id}"}, {"var-only", "{id}"},
+		{"no-leading-slash", "a/{id}"}, {"slash-only", "/"}, {"double-slash", "//a//{id}"}, {"trailing-slash", "/a/{id}/"}, {"query-in-path", "/a?x=1&id={id}"},
+		{"fragment", "/a#frag"}, {"dot-segments", "/a/../b/./{id}"}, {"wildcard", "/a/*/{id...}"}, {"verb-prefix", "GET /a/{id}"}, {"host-prefix", "example.com/a/{id}"},
+		{"unknown-var", "/a/{nope}"}, {"many-vars", "/{id}/{user_id}/{post_id}/{other}/{id}/{user_id}"}, {"reversed-braces", "/a/}id{"}, {"unicode-var", "/a/{идент}"},
+	}
+	return append(paths, generic...)
+}
+
+// textFile puts one odd string into one annotation slot of an otherwise ordinary definition.
+func textFile(pkg, slot, text string) *spec.File {
+	in := func(m string) string { return "." + pkg + "." + m }
+	req := &spec.Message{Name: "TReq", Fields: []*spec.Field{spec.F("id", 1, spec.String), spec.F("user_id", 2, spec.String), spec.F("post_id", 3, spec.Int64), spec.F("other", 4, spec.String), spec.F("q", 5, spec.String)}}
+	resp := &spec.Message{Name: "TResp", Fields: []*spec.Field{spec.F("ok", 1, spec.Bool)}}
+	f := &spec.File{Messages: []*spec.Message{req, resp}}
+	svc := &spec.Service{Name: "TextService", BasePath: spec.S("/text"), Methods: []*spec.Method{
+		{Name: "Post", In: in("TReq"), Out: in("TResp"), HTTP: &spec.HTTP{Path: "/t/{id}", Verb: 2}},
+		{Name: "Get", In: in("TGet"), Out: in("TResp"), HTTP: &spec.HTTP{Path: "/t/{id}", Verb: 1}},
+	}}
+	get := &spec.Message{Name: "TGet", Fields: []*spec.Field{spec.F("id", 1, spec.String), spec.F("user_id", 2, spec.String).Q("user_id"), spec.F("post_id", 3, spec.Int64).Q("post_id"), spec.F("other", 4, spec.String).Q("other")}}
+	f.Messages = append(f.Messages, get)
+	sh := spec.Header{Name: "X-Tenant", Type: "string", Required: true}
+	mh := spec.Header{Name: "X-Mode", Type: "string"}
+	switch slot {
+	case "path":
+		svc.Methods[0].HTTP.Path, svc.Methods[1].HTTP.Path = text, text
+	case "base-path":
+		svc.BasePath = spec.S(text)
+	case "header-name":
+		sh.Name, mh.Name = text, text+"2"
+	case "header-type":
+		sh.Type, mh.Type = text, text
+	case "header-format":
+		sh.Format, mh.Format = text, text
+	case "header-text":
+		sh.Description, sh.Example, mh.Description, mh.Example = text, text, text, text
+	case "query-name":
+		get.Fields[1].Ann.Query = &spec.Query{Name: text}
+		get.Fields[2].Ann.Query = &spec.Query{Name: text + "2", Required: true}
+	case "discriminator", "oneof-value":
+		a := &spec.Message{Name: "VarA", Fields: []*spec.Field{spec.F("text", 1, spec.String)}}
+		b := &spec.Message{Name: "VarB", Fields: []*spec.Field{spec.F("num", 1, spec.Int32)}}
+		for _, flat := range []bool{false, true} {
+			m := &spec.Message{Name: map[bool]string{false: "Nested", true: "Flat"}[flat], Fields: []*spec.Field{spec.F("id", 1, spec.String), spec.FM("a", 2, in("VarA")).In(1), spec.FM("b", 3, in("VarB")).In(1)}}
+			o := &spec.Oneof{Name: "kind", HasConfig: true, Discriminator: "type", Flatten: flat}
+			if slot == "discriminator" {
+				o.Discriminator = text
+			} else {
+				m.Fields[1].Ann.OneofValue = spec.S(text)
+			}
+			m.Oneofs = []*spec.Oneof{o}
+			f.Messages = append(f.Messages, m)
+			resp.Fields = append(resp.Fields, spec.FM(strings.ToLower(m.Name), int32(10+len(resp.Fields)), in(m.Name)))
+		}
+		f.Messages = append(f.Messages, a, b)
+	case "enum-value":
+		f.Enums = []*spec.EnumDef{{Name: "Mood", Values: []spec.EnumValue{{Name: "MOOD_UNSPECIFIED", Num: 0, JSON: spec.S(text)}, {Name: "MOOD_OK", Num: 1, JSON: spec.S("ok")}, {Name: "MOOD_DUP", Num: 2, JSON: spec.S(text)}}}}
+		resp.Fields = append(resp.Fields, spec.FE("mood", 2, in("Mood")), spec.FE("moods", 3, in("Mood")).Rep())
+	case "flatten-prefix":
+		ch := &spec.Message{Name: "Addr", Fields: []*spec.Field{spec.F("street", 1, spec.String), spec.F("zip_code", 2, spec.String)}}
+		f.Messages = append(f.Messages, ch)
+		resp.Fields = append(resp.Fields, spec.FM("addr", 2, in("Addr")).With(func(a *spec.Ann) { a.Flatten = spec.B(true); a.FlattenPrefix = spec.S(text) }))
+	case "field-example":
+		resp.Fields = append(resp.Fields, spec.F("name", 2, spec.String).With(func(a *spec.Ann) { a.Examples = []string{text, "plain"} }),
+			spec.F("count", 3, spec.Int32).With(func(a *spec.Ann) { a.Examples = []string{text, "7"} }), spec.F("ratio", 4, spec.Double).With(func(a *spec.Ann) { a.Examples = []string{text} }),
+			spec.F("flag", 5, spec.Bool).With(func(a *spec.Ann) { a.Examples = []string{text} }), spec.F("big", 6, spec.Uint64).With(func(a *spec.Ann) { a.Examples = []string{text, "18446744073709551615"} }))
+	case "comment":
+		req.Comment, req.Fields[0].Comment, resp.Comment, svc.Comment, svc.Methods[0].Comment, svc.Methods[1].Comment = text, text, text, text, text, text
+	}
+	svc.Headers = []spec.Header{sh}
+	svc.Methods[0].Headers = []spec.Header{mh}
+	f.Services = []*spec.Service{svc}
+	return f
 }
 
 // c16: every plugin terminates with an answer for every valid descriptor set.
@@ -211,10 +312,18 @@ func c16(c *Ctx) {
 		param string
 	}
 	var jobs, heavy []job
+	textIdx := 0
 	for _, sc := range shapes {
 		if !c.Thorough() && strings.HasPrefix(sc.ID, "recursive/") {
 			// quick: cycle length 1 and a seed-rotating other one
 			if !strings.HasSuffix(sc.ID, "cycle1") && !strings.HasSuffix(sc.ID, fmt.Sprintf("cycle%d", 2+int(c.Seed)%2)) {
+				continue
+			}
+		}
+		if !c.Thorough() && strings.HasPrefix(sc.ID, "text/") && !strings.HasPrefix(sc.ID, "text/path/") && !strings.HasPrefix(sc.ID, "text/base-path/") {
+			// quick: every path-like text, a seed-rotating third of the other slots' texts
+			textIdx++
+			if (textIdx+int(c.Seed))%3 != 0 {
 				continue
 			}
 		}
